@@ -254,7 +254,11 @@ Frame(m, a, si, sm, sc, t) ==
    g0 |-> gprog]       \* history: the process-wide scopes open at that moment
 
 \* the small detour family is explored deeper (the status tree of timeit is history and grows fast)
-Bonus == CASE fam = FamDetour -> 2 [] OTHER -> 0
+\* and the permission/contextual family, whose propagated scopes multiply the product of two
+\* threads, one level less when there are several threads
+Bonus == CASE fam = FamDetour -> 2
+           [] fam = FamPermCtx /\ Cardinality(Threads) > 1 -> -1
+           [] OTHER -> 0
 DepthOf(t) == IF t = Deep THEN MaxDepth + Bonus ELSE ShallowDepth
 
 Init ==
